@@ -1,0 +1,51 @@
+//go:build verif
+
+package hashprefix
+
+// Contracts for govc (see /verif/DESIGN.md).  This file is comment-only and is compiled only with -tags=verif.
+
+// ---- C19: safe-browsing / parental lookups ----
+
+//@ ghost var hexOut map[string]bool
+//@ ghost var lastQuestion string
+
+// Only three kinds of text are ever written into the question: hex of a 2-byte hash prefix, the separator, the service
+// suffix.  getQuestion has no access to the host name (it is not a parameter).
+//@ func (c *Checker) getQuestion(hashes []hostnameHash) (q string)
+//@   property C19
+//@   modifies *
+//@   callsite encoding/hex.EncodeToString(src) requires len(src) == 2
+//@   callsite github.com/AdguardTeam/golibs/stringutil.WriteToBuilder(b, strs) requires forall k int :: 0 <= k && k < len(strs) ==> strs[k] == "." || strs[k] == c.txtSuffix || hexOut[strs[k]]
+//@   ghost at return: lastQuestion = q
+
+// The request sent to the lookup service asks for the TXT record of exactly the name built by getQuestion.
+//@ func (c *Checker) Check(host string) (ok bool, err error)
+//@   property C19
+//@   modifies *
+//@   callsite (github.com/AdguardTeam/dnsproxy/upstream.Upstream).Exchange(up, req) requires len(req.Question) == 1 && req.Question[0].Name == lastQuestion && req.Question[0].Qtype == 16
+
+// Cached verdicts: a cached item is consulted for a match only while it has not expired.
+//@ func (c *Checker) findInCache(hashes []hostnameHash) (found bool, blocked bool, hashesToRequest []hostnameHash)
+//@   property C19
+//@   modifies *
+//@   callsite github.com/AdguardTeam/AdGuardHome/internal/filtering/hashprefix.findMatch(a, b) requires inst(item.expiry) >= inst(now)
+//@   ensures blocked ==> found
+//@   ensures found ==> len(hashesToRequest) == 0
+//@   ensures !found ==> 0 < len(hashesToRequest) && len(hashesToRequest) <= len(hashes)
+//@   loop 1 invariant 0 <= i && i <= #i && #i <= len(hashes)
+
+//@ func toCacheItem(data []byte) (r0 *cacheItem)
+//@   property C19
+//@   requires well-formed-item: len(data) >= 8 && (len(data) - 8) % 32 == 0
+//@   modifies nothing
+//@   ensures fresh(r0)
+//@   loop 1 invariant 0 <= i && i <= len(data) && i % 32 == 0 && len(data) % 32 == 0
+
+//@ func fromCacheItem(item *cacheItem) (data []byte)
+//@   property C19
+//@   requires fits-in-memory: len(item.hashes) < 144115188075855872
+//@   modifies nothing
+//@   ensures len(data) == 8 + 32 * len(item.hashes)
+//@   loop 1 invariant len(data) == 8 + 32 * #i && 0 <= #i && #i <= len(item.hashes)
+
+//@ sweep C19 (github.com/AdguardTeam/dnsproxy/upstream.Upstream).Exchange
